@@ -126,6 +126,16 @@ PROPS = {
                      "tag, case-only and www.-only differences between a rule and its badfilter twin are outside the stated domain"],
         floors=(500_000, 100_000, 6_000_000, 400_000),
     ),
+    "C07": simple(
+        rule="case = (list whose rules aim at one target URL with tag options on blocking, exception, important and csp rules incl. empty and "
+             "case-variant tag names, optimise on/off, debug on/off; a history of 1-25 operations from {use_tags, enable_tags, disable_tags, "
+             "deserialize(buffer serialized by another engine under a different tag set)} with repeated / duplicate / never-used tags); after "
+             "every operation tag_exists(t) is compared with the set model for 8 tags and a 3-request verdict battery is compared with O-scan "
+             "using active(rule) <=> tag in model set. non-trivial = some tagged rule matched a battery request both while active and while "
+             "inactive during the history; distinct = hash of (list, history).",
+        assumptions=["tag combined with redirect / removeparam / generichide is outside the stated categories and is not generated"],
+        floors=(3_000_000, 30_000, 30_000_000, 300_000),
+    ),
 }
 
 # ---------------------------------------------------------------------------------------------
@@ -175,6 +185,14 @@ MANIFEST_TEXT = {
         "note": "x never badfilter/csp/removeparam (stated domain); per-rule matching trusted (C02/C03).",
         "technique": "runtime monitoring: reference-model differential + metamorphic relations over seeded workloads",
         "design_ref": "DESIGN.md §4.4",
+    },
+    "C07": {
+        "text": "Runtime model-based monitor: a set model of the enabled tags is stepped alongside the real engine through random histories of "
+                "use/enable/disable/deserialize; after each step the tag query and a verdict battery (vs the linear-scan reference with tag-dependent "
+                "activity) are compared; tagged rules of every stated category are generated and toggled while they match.",
+        "note": "Per-rule matching trusted (C02/C03); deserialize uses buffers of the same list under different tag sets.",
+        "technique": "runtime monitoring: model-based history checking against a set model + reference verdicts",
+        "design_ref": "DESIGN.md §4.7",
     },
 }
 
